@@ -356,8 +356,37 @@ def tl_probes():
     return (probes_for(TL_ALPHA, extra=[NONASCII]), probes_for(GTN), [p for p in probes_for(DOM)])
 
 
+_BLOCKS = {}
+
+
+def _block(kind, s, nprobes, gprobes, eprobes):
+    """cached (command text, plan template) of the probe menu: the same for every case of a worker"""
+    key = (kind, s)
+    if key not in _BLOCKS:
+        lines, tmpl = [], []
+        if kind == 'Y':
+            for g in gprobes:
+                if gtype_registrable(g):
+                    lines.append('Y %s' % hx(g))
+                    tmpl.append(('Y', g))
+        else:
+            for p in nprobes:
+                lines.append('N %d %s' % (s, hx(p)))
+                tmpl.append(('N', s, p, 'after'))
+            for g in gprobes:
+                lines.append('G %d %s' % (s, hx(g)))
+                tmpl.append(('G', s, g, 'after'))
+                lines.append('P %d %s' % (s, hx(g)))
+                tmpl.append(('P', s, g))
+            for e in eprobes:
+                lines.append('E %d %s' % (s, hx(e)))
+                tmpl.append(('E', s, e, 'after'))
+        _BLOCKS[key] = ('\n'.join(lines), tmpl)
+    return _BLOCKS[key]
+
+
 def build_commands(cases, paths, nprobes, gprobes, eprobes):
-    """-> (command lines, plan) where plan[i] describes what output line i answers"""
+    """-> (command text chunks, plan) where plan[i] describes what output line i answers"""
     cmds, plan = [], []
 
     def add(c, what):
@@ -366,9 +395,9 @@ def build_commands(cases, paths, nprobes, gprobes, eprobes):
 
     for ci, case in enumerate(cases):
         add('R', ('R',))
-        for g in gprobes:
-            if gtype_registrable(g):
-                add('Y %s' % hx(g), ('Y', g))
+        text, tmpl = _block('Y', 0, nprobes, gprobes, eprobes)
+        cmds.append(text)
+        plan.extend(tmpl)
         nslots = len(case.docs)
         for s in range(nslots):
             add('T %d %s %s' % (s, case.ns[s].decode(), paths[ci][s]), ('T', ci, s))
@@ -383,13 +412,9 @@ def build_commands(cases, paths, nprobes, gprobes, eprobes):
         for s in reversed(range(nslots)):
             add('L %d' % s, ('L', ci, s))
         for s in range(nslots):
-            for p in nprobes:
-                add('N %d %s' % (s, hx(p)), ('N', ci, s, p, 'after'))
-            for g in gprobes:
-                add('G %d %s' % (s, hx(g)), ('G', ci, s, g, 'after'))
-                add('P %d %s' % (s, hx(g)), ('P', ci, s, g))
-            for e in eprobes:
-                add('E %d %s' % (s, hx(e)), ('E', ci, s, e, 'after'))
+            text, tmpl = _block('probes', s, nprobes, gprobes, eprobes)
+            cmds.append(text)
+            plan.extend([(e[0], ci) + e[1:] for e in tmpl])
     return cmds, plan
 
 
